@@ -112,6 +112,17 @@ def shard(seed, items, tier):
                 hard = 4 * budget_for(len(A), nm + 4, 2 * MiB if ('pm1-endless' in tag or 'self-referential' in tag) else 300000)
                 cases.append(rdh.RCase(A, [(rdh.OP_WALK, parg), rdh.OP_NEXT, rdh.OP_NEXT], kind=kind, budget=hard, meta=(tag, pname)))
 
+    # read errors: the stream's read function reports an error (-1) from some offset on (an I/O fault, not a truncation).  Every call
+    # must come back; the step budget is the same as for a truncation at that offset.
+    for tag, A, nm in items:
+        if tag.startswith('generated-') and '@cut' not in tag:
+            offs = range(0, len(A), 1 if tier == 'thorough' else 5)
+            for eo in offs:
+                for kind in (2, 3):
+                    pname, parg = PATTERNS[(eo + kind) % len(PATTERNS)]
+                    cases.append(rdh.RCase(A, [(rdh.OP_WALK, parg), (rdh.OP_NEXT, 0), (rdh.OP_NEXT, 0), (rdh.OP_NEXT, 0)], kind=kind, flags=rdh.F_FULLDATA | ((eo + 1) << 8),
+                                           budget=8 * budget_for(len(A), nm, len(A) * 4), meta=(tag + '@readerr%d' % eo, pname)))
+
     def on_crash(case, cls, key, err):
         if cls == 'hang':
             sh.violation('C13-watchdog:%s:%s:%s' % (rdh.KIND_NAMES[case.kind], case.meta[1], case.meta[0].split('@')[0]),
@@ -134,7 +145,7 @@ def shard(seed, items, tier):
             continue
         if rdh.budget_hit(ev):
             b = [d for k, d in ev if k == 'budget'][0]
-            sh.violation('C13-no-return:%s:%s:%s' % (rdh.KIND_NAMES[c.kind], pname, 'truncated' if '@cut' in tag else group),
+            sh.violation('C13-no-return:%s:%s:%s' % (rdh.KIND_NAMES[c.kind], pname, 'truncated' if '@cut' in tag else 'read-error' if '@readerr' in tag else group),
                          '%s on %s via %s did not return: %d stream reads and %d skips issued for an input of %d bytes (hard stop)'
                          % (pname, tag, rdh.KIND_NAMES[c.kind], b['reads'], b['skips'], len(c.archive)), c.archive)
             continue
@@ -378,7 +389,7 @@ def run(ctx):
         + [it for it in items if it[0].startswith('mutated-')][:(60 if ctx.tier == 'quick' else 1500)]
     cli_extract_part(ctx, exe_cli, so, xitems, big)
     ctx.cov['rule'] = ('(input, stream kind, operation) triples: every truncation offset of generated multi-member archives (all methods), extreme '
-                       'length declarations, inputs without a header up to and around the 256 KiB scan limit, self-referential and pm1-endless '
+                       'length declarations, inputs without a header up to and around the 256 KiB scan limit, a read callback that reports an error from every (5th) offset on, self-referential and pm1-endless '
                        'streams, mutated and random inputs x 4 stream kinds x {list, read 1 byte each, read to end, check}; distinct by input+kind+'
                        'operation; non-trivial = input longer than a minimal header; CLI: l/t/pq via file and pipe, and x/e/xi three times into the same directory '
                        '(the second and third run meet existing files: overwrite prompt with stdin empty, unfinished, junk, or answered) under a '
